@@ -184,7 +184,7 @@ func runC20(a *Analyzer, r *Results) {
 							})
 						}
 					}
-					r.Check("W5.guard", props("C20", "C09", "C11"), "an optional nested structure is re-encoded exactly when the source carries it: the test that guards building the nested literal depends only on the reader it copies from", label, a.P.InstrPos(al), why2 == "", why2, "D")
+					r.Check("W5.guard", props("C20", "C09", "C11", "C05"), "an optional nested structure is re-encoded exactly when the source carries it: the test that guards building the nested literal depends only on the reader it copies from", label, a.P.InstrPos(al), why2 == "", why2, "D")
 				}
 			}
 		}
